@@ -80,6 +80,7 @@ type lenSim struct {
 	tracked  map[*types.Var]string
 	stores   map[string][]lform // tracked field name -> forms stored (deltas for accumulations)
 	storePos map[string]string
+	accum    map[string]bool // tracked field -> its store adds to the old value
 	writes   []string // slice identities written to the sink, in program order
 	depth    int
 }
@@ -317,9 +318,16 @@ func (s *lenSim) sim(fn *ssa.Function, env *lenv) {
 				}
 				val := x.Val
 				// accumulation: field = field + v
+				acc := false
 				if bo, isB := val.(*ssa.BinOp); isB && bo.Op == token.ADD && fieldOfLoad(bo.X) == fld {
-					val = bo.Y
+					val, acc = bo.Y, true
+				} else if isB && bo.Op == token.ADD && fieldOfLoad(bo.Y) == fld {
+					val, acc = bo.X, true
 				}
+				if s.accum == nil {
+					s.accum = map[string]bool{}
+				}
+				s.accum[name] = acc
 				s.stores[name] = append(s.stores[name], s.form(val, env, 0))
 				s.storePos[name] = s.u.Pos(x.Pos())
 			case *ssa.Call:
@@ -476,6 +484,10 @@ func laLen(c *Ctx, rule string) {
 				r.bad(rule, k, pos, fmt.Sprintf("%d stores to %s per page, want exactly one", len(fs), name))
 				continue
 			}
+			if strings.HasPrefix(name, "ColumnMetaData.") && !s.accum[name] {
+				r.bad(rule, k, s.storePos[name], name+" is overwritten per page, not accumulated: a chunk written as several pages keeps only its last page's size")
+				continue
+			}
 			if got := fs[0].String(); got != want[name] {
 				r.bad(rule, k, s.storePos[name], fmt.Sprintf("%s is set to %s per page, but the bytes written require %s", name, human(got), human(want[name])))
 			} else {
@@ -488,6 +500,8 @@ func laLen(c *Ctx, rule string) {
 		switch {
 		case len(h) != 1 || len(ch) != 1:
 			r.bad(rule, k, pos, fmt.Sprintf("%d/%d stores of the value count in header/chunk per page", len(h), len(ch)))
+		case !s.accum["ColumnMetaData.NumValues"]:
+			r.bad(rule, k, s.storePos["ColumnMetaData.NumValues"], "the chunk's num_values is overwritten per page, not accumulated: a chunk written as several pages reports only its last page's values")
 		case h[0].top != "" || h[0].String() != ch[0].String():
 			r.bad(rule, k, s.storePos["ColumnMetaData.NumValues"], "page header num_values is "+h[0].String()+" but the chunk's num_values grows by "+ch[0].String())
 		default:
@@ -702,6 +716,8 @@ func checkC02(c *Ctx) {
 	laFrame(c, "LA-frame")
 	laOffset(c, "LA-offset")
 	laCells(c, "LA-cells")
+	runFT(c, "FT", map[string]bool{"count": true, "schema": true})
+	runTD(c, "TD", map[string]bool{"write": true, "add": true})
 	runWHRows(c, "WH-rows")
 	runWHEmpty(c, "WH-empty")
 	runWHChild(c, "WH-child")
@@ -743,6 +759,7 @@ func laOffset(c *Ctx, rule string) {
 			var bad []string
 			accs := 0
 			seen := map[ssa.Value]bool{}
+			terms := map[string]bool{}
 			var spine func(v ssa.Value, depth int)
 			inLoop := func(b *ssa.BasicBlock) bool {
 				for _, s := range reachableBlocks(b) {
@@ -806,6 +823,10 @@ func laOffset(c *Ctx, rule string) {
 				case *ssa.UnOp:
 					if x.Op != token.MUL {
 						return
+					}
+					// a size taken from the file's own metadata structs: remember which one
+					if tf := fieldOf(x.X); tf != nil && tf.Pkg() != nil && tf.Pkg().Path() == schPath {
+						terms[tf.Name()] = true
 					}
 					// integer cell of a local: all stores to the same cell inside loops must advance it
 					var cellBase *ssa.Alloc
@@ -893,6 +914,20 @@ func laOffset(c *Ctx, rule string) {
 				}
 			}
 			spine(st.Val, 0)
+			// what the running sum is advanced by: the chunk's size in the file
+			var wrong []string
+			// (a row group's total_byte_size and earlier offsets are themselves sums of it)
+			for t := range terms {
+				switch t {
+				case "TotalCompressedSize", "TotalByteSize", "FileOffset", "DataPageOffset":
+				default:
+					wrong = append(wrong, t)
+				}
+			}
+			sort.Strings(wrong)
+			if len(wrong) > 0 {
+				bad = append(bad, "the running offset is advanced by "+strings.Join(wrong, ", ")+": a chunk occupies total_compressed_size bytes of the file (page headers included), nothing else moves the position")
+			}
 			switch {
 			case len(bad) > 0:
 				r.bad(rule, key, pos, strings.Join(bad, "; "))
